@@ -152,6 +152,9 @@ type config struct {
 }
 
 func main() {
+	if len(os.Args) > 1 && os.Args[1] == "-readback" {
+		os.Exit(readbackMain(os.Args[2:]))
+	}
 	seed := flag.Int64("seed", 1, "random seed (all randomness derives from it)")
 	n := flag.Int("n", 1000, "number of grammars")
 	k := flag.Int("k", 10, "inputs per grammar and flag set")
